@@ -3,16 +3,19 @@ module sxverif/harness
 go 1.19
 
 require (
+	github.com/andres-erbsen/clock v0.0.0-20160526145045-9e14626cd129
+	github.com/docker/docker v20.10.7+incompatible
 	github.com/google/gopacket v1.1.20-0.20210304165259-20562ffb40f8
 	github.com/v-byte-cpu/sx v0.0.0
+	github.com/vishvananda/netlink v1.1.0
 	github.com/yl2chen/cidranger v1.0.2
+	go.uber.org/ratelimit v0.2.0
+	golang.org/x/net v0.0.0-20210813160813-60bc85c4be6d
 )
 
 require (
-	github.com/andres-erbsen/clock v0.0.0-20160526145045-9e14626cd129 // indirect
 	github.com/containerd/containerd v1.4.4 // indirect
 	github.com/docker/distribution v2.7.1+incompatible // indirect
-	github.com/docker/docker v20.10.7+incompatible // indirect
 	github.com/docker/go-connections v0.4.0 // indirect
 	github.com/docker/go-units v0.4.0 // indirect
 	github.com/gogo/protobuf v1.3.2 // indirect
@@ -26,13 +29,10 @@ require (
 	github.com/sirupsen/logrus v1.4.2 // indirect
 	github.com/spf13/cobra v1.5.0 // indirect
 	github.com/spf13/pflag v1.0.5 // indirect
-	github.com/vishvananda/netlink v1.1.0 // indirect
 	github.com/vishvananda/netns v0.0.0-20191106174202-0a2b9b5464df // indirect
 	go.uber.org/atomic v1.7.0 // indirect
 	go.uber.org/multierr v1.6.0 // indirect
-	go.uber.org/ratelimit v0.2.0 // indirect
 	go.uber.org/zap v1.23.0 // indirect
-	golang.org/x/net v0.0.0-20210813160813-60bc85c4be6d // indirect
 	golang.org/x/sys v0.0.0-20211205182925-97ca703d548d // indirect
 	google.golang.org/genproto v0.0.0-20211208223120-3a66f561d7aa // indirect
 	google.golang.org/grpc v1.42.0 // indirect
